@@ -3,9 +3,11 @@ from gosym.check import Task
 
 ID = 'C05'
 PKG = 'pkg/frame'
-HARNESS_FILES = ['pkg/frame/zz_verif_common.go', 'pkg/frame/zz_verif_c05.go']
+HARNESS_FILES = ['pkg/frame/zz_verif_common.go', 'pkg/frame/zz_verif_c05.go', 'pkg/frame/zz_verif_dialect.go', 'pkg/frame/zz_verif_c02.go',
+                 'pkg/x25/zz_verif_c02.go', 'pkg/frame/zz_verif_c05d.go']
+ROOTS = ['verifHarness_C05']
 ALLOW = 'bufio,io,encoding/binary,errors,bytes'
-INITS = 'io,bufio,errors'
+INITS = 'io,bufio,errors,github.com/bluenviron/gomavlib/v3/pkg/message'
 OPTIONS = {}
 SLICE_S = 3
 MAX_PATHS_PER_TASK = 60000
@@ -50,11 +52,16 @@ def tasks(tier):
         for cut in range(1, full):
             for inj in ((0,) if tier == 'quick' and cut % 3 else (0, 1)):
                 ts.append(Task('verifHarness_C05_truncated', [kind, n, cut, inj]))
+    # D: with a dialect: payloads shorter / exact / longer than the message, arbitrary checksum
+    for n in ((0, 5, 9, 10, 20) if tier == 'quick' else (0, 1, 4, 5, 6, 9, 10, 15, 16, 19, 20, 40)):
+        ts.append(Task('verifHarness_C05_dialect', [1, n], {'x25_uf': True}))
+    for n in ((5, 19) if tier == 'quick' else (0, 5, 6, 15, 19, 20)):
+        ts.append(Task('verifHarness_C05_dialect', [0, n], {'x25_uf': True}))
     return ts
 
 
 def required_reach(tier):
-    return ['C05/A', 'C05/B', 'C05/T']
+    return ['C05/A', 'C05/B', 'C05/T', 'C05/D']
 
 
 def bounds(tier):
@@ -64,7 +71,8 @@ def bounds(tier):
             'structured_streams': 'two frames (v1 / v2 / signed v2, payload 0..3, all contents symbolic) with 0..2 non-marker noise bytes before, between and after; second reader fed 1-byte chunks or with ' + ('one' if tier == 'quick' else 'one or two') + ' arbitrary cut point(s); ' + ('6 layouts' if tier == 'quick' else 'all kind pairs x 4 length pairs x 6 noise layouts'),
             'truncated_frames': 'a valid v1 / v2 / signed v2 frame cut at every offset, transport ending with EOF or another error, whole or in 1-byte reads: the first call returns no frame (what follows on the leftover bytes is harness A)',
             'transport_end': 'io.EOF, and a non-EOF error after the last byte (= an error injected at every offset, since every length is explored)',
-            'dialect_and_key': 'none (gates are C02/C06)'}
+            'dialect': 'reader with the harness dialect (4 message shapes): a v1 / v2 frame with a dialect id, a payload of length ' + ('0,5,9,10,20' if tier == 'quick' else '0..40 (12 values)') + ' (shorter, exact, longer than the message), arbitrary bytes and checksum, then a valid frame: frame or parse error, never a panic, the following frame delivered, then EOF; crcstep uninterpreted',
+            'key': 'none (C06)'}
 
 
 OUTSIDE = ['streams longer than the bound', 'underlying readers that return (0, nil)',
